@@ -59,6 +59,8 @@ def lf (ws : List String) : String :=
       s!"{hexOfChars (unquote s)} {hexOfChars (toCow s)} {boolStr (isQuoted s)}"
   | ["cowk", k, h] =>
       let u := (Uq.new (charsOfHex h)).advance (nat! k)
+      -- the low-level `to_cow` (byte indices from `find`, slices that panic off a boundary) must agree
+      if !(decide (LinkLow.toCowLow u = .ok u.toCow)) then "LOW-LEVEL-MODEL-DISAGREES" else
       s!"{hexOfChars u.rest} {hexOfChars u.toCow} {boolStr u.isQuoted}"
   | ["writenf", nl, _mask, d] =>
       -- attribute writers dropped without their optional finish(): same document
